@@ -824,3 +824,33 @@ def rule_nf7(ctx: Ctx) -> RuleResult:
                   "result discarded: a str inside a nested union no longer suppresses literals passed next to it, so str and "
                   "Literal coexist"), n.lineno)
     return rr
+
+
+def rule_samples1(ctx: Ctx) -> RuleResult:
+    """Every sample given to generate() is converted and merged: none filtered, de-duplicated or reordered."""
+    rr = RuleResult("SAMPLES-1", "every sample takes part in the inference, in the order given", floor=2)
+    prog = ctx.prog
+    gen = prog.func(GEN, "MetadataGenerator.generate")
+    conv = prog.func(GEN, "MetadataGenerator._convert")
+    vararg = gen.node.args.vararg.arg if gen.node.args.vararg else None
+    rr.instances += 1
+    ok = False
+    why = "no comprehension `[self._convert(data) for data in <samples>]`"
+    for n in walk_no_nested(gen.node):
+        if isinstance(n, (ast.ListComp, ast.GeneratorExp)) and len(n.generators) == 1 and isinstance(n.elt, ast.Call):
+            if conv in [t for t in ctx.cg.resolve_call(gen, gen.module, n.elt) if isinstance(t, FuncInfo)]:
+                g0 = n.generators[0]
+                ok = norm(g0.iter) == vararg and not g0.ifs and norm(n.elt.args[0]) == norm(g0.target)
+                why = "" if ok else f"iterates `{norm(g0.iter)}` with filter={bool(g0.ifs)}: samples can be dropped (Python equality " \
+                                    f"treats 1 == 1.0 == True, so 'duplicates' are not duplicates for type inference)"
+    rr.ob(gen.relpath, gen.qualname, "[self._convert(data) for data in data_variants]", "each sample is converted, none is skipped",
+          DISCHARGED if ok else VIOLATED, "all samples, unfiltered" if ok else why, gen.node.lineno)
+    # no statement of generate() rebuilds / filters the sample tuple
+    rr.instances += 1
+    tamper = [n for n in walk_no_nested(gen.node) if isinstance(n, (ast.Assign, ast.AugAssign)) and any(
+        isinstance(t, ast.Name) and t.id == vararg for t in (n.targets if isinstance(n, ast.Assign) else [n.target]))]
+    loops = [n for n in walk_no_nested(gen.node) if isinstance(n, ast.For) and vararg in names_in(n.iter) and has_escape(n.body)]
+    okk = not tamper and not loops
+    rr.ob(gen.relpath, gen.qualname, f"*{vararg}", "the sample tuple itself is used as given", DISCHARGED if okk else VIOLATED,
+          "not rebuilt" if okk else f"`{norm((tamper + loops)[0])[:60]}` rebuilds or filters the samples", gen.node.lineno)
+    return rr
